@@ -101,11 +101,17 @@ def build_model(group):
     if os.path.exists(MODEL_BIN) and os.path.getmtime(MODEL_BIN) >= newest:
         return True, "up to date"
     ensure_makefile()
-    # model .vo files must exist for extraction
+    # the .vo files the group's Extract.v imports must exist (make adds their dependencies);
+    # other groups' files are not touched
+    ex = strip_comments(open(os.path.join(OCAML, group, "Extract.v")).read())
+    mods = []
+    for m in re.finditer(r"From\s+Mdns\s+Require\s+Import\s+([^.]+)\.", ex):
+        mods += m.group(1).split()
     vos = []
-    for d in ("Base", "Gen", "Model"):
-        dd = os.path.join(COQ, d)
-        vos += ["%s/%s" % (d, f[:-2] + ".vo") for f in sorted(os.listdir(dd)) if f.endswith(".v")]
+    for name in mods:
+        for d in ("Base", "Gen", "Model", "Proofs"):
+            if os.path.exists(os.path.join(COQ, d, name + ".v")):
+                vos.append("%s/%s.vo" % (d, name))
     rc, out = sh(["sh", COQMAKE] + vos, cwd=COQ, timeout=3400)
     if rc != 0:
         return False, out
@@ -400,6 +406,16 @@ def main_check(mod):
                 if extra:
                     problems.append({"kind": "axioms", "what": "theorem depends on axioms not in the allow-list",
                                      "detail": a})
+    coqchk_out = None
+    if tier == "thorough" and pr_ok:
+        # independent re-check of the compiled property file and everything it depends on
+        modname = "Mdns." + mod.THEOREM_FILE[:-2].replace("/", ".")
+        rc, out = sh(["coqchk", "-o", "-silent", "-Q", ".", "Mdns", modname], cwd=COQ, timeout=3000)
+        coqchk_out = out[-1500:]
+        if rc != 0:
+            problems.append({"kind": "coqchk", "what": "coqchk rejects the compiled development", "detail": coqchk_out})
+        elif "* Axioms: <none>" not in out:
+            problems.append({"kind": "coqchk", "what": "coqchk reports axioms", "detail": coqchk_out})
     bad = audit_sources()
     if bad:
         problems.append({"kind": "audit", "what": "forbidden declaration in the development", "detail": bad})
@@ -581,6 +597,7 @@ def main_check(mod):
             "print_assumptions": assumptions,
             "theorem_file_sha1": hashlib.sha1(open(os.path.join(COQ, mod.THEOREM_FILE), "rb").read()).hexdigest(),
             "params_extractor_ok": okp,
+            "coqchk": coqchk_out,
             "evaluations": len(lines),
             "distinct_nontrivial": distinct,
             "rule": mod.RULE,
